@@ -51,7 +51,9 @@ LEVEL_TEXT = ('Theorems (P_C07.v) over the Gallina transition system of LockFile
               'locks); with time in the model (tstep/treach: one clock, modification time = last open("w+") / pid write): '
               'cleanup_never_unlinks, cleanup_never_removes_held_file and mutex_timed for remove-on-unlock locks along runs in which '
               'no process keeps a lock file open longer than max_lock_time, cleanup_needs_timely_refuted; with environment faults (runf/stepf): '
-              'mutex_with_faults, semaphore_bounded_with_faults, flock_fault_fails_attempt, remove_fault_releases.  Mutual exclusion is REFUTED (3 processes, 11 calls) for the same system without the identity check of '
+              'mutex_with_faults, semaphore_bounded_with_faults, flock_fault_fails_attempt, remove_fault_releases; with the clean-up of a lock '
+              'directory that holds semaphore slot files (runs/steps: the suffix test matches no `<name>.lck<i>`): semaphore_bounded_in_shared_lock_dir '
+              '(every schedule, faults included, no condition on ages) and semaphore_files_never_removed.  Mutual exclusion is REFUTED (3 processes, 11 calls) for the same system without the identity check of '
               'commit 493c25f.  The model is tied to the code by running real lock users on real files under a scheduler that '
               'serialises their system calls and replaying the observed trace through Lock.step in Coq.')
 LEVEL_NOTE = ('Trusted: Coq kernel, the hand-written model Lock.v, the scheduler harness.  Modelled, not verified: flock(2) '
@@ -1006,6 +1008,7 @@ def run(ctx):
         todo += list(exhaustive(3, 5, three_q))
 
     terms, descr = [], []
+    sem_terms, sem_descr = [], []
     reported = set()
     with Patches() as patches:
         for seq_no, (conf, schedule, origin) in enumerate(todo):
@@ -1079,10 +1082,18 @@ def run(ctx):
                 obs.append('TObs ' + IMPOSSIBLE)
             terms.append('(%s, [%s])' % (conf_lit(conf), '; '.join(obs)))
             descr.append(rep)
+            if conf['kind'] == 'sem' and any(c.get('clean') for c in conf['contenders']):
+                # the whole trace, clean-up calls included, through Lock.steps (semaphore users + the clean-up of a directory of
+                # slot files: time, listdir -> nothing matches; + faults); untimed (the readings are checked by the replay above)
+                full = [obs_lit(e) for e in trace] + ([IMPOSSIBLE] if hang or s.weird else [])
+                sem_terms.append('(%s, [%s])' % (conf_lit(conf), '; '.join(full)))
+                sem_descr.append(rep)
     # replay through the timed layer: Lock.stepc for calls and results, Lock.tstep for the readings (every time.time()
     # equals the clock, every getmtime equals the time of the last open('w+') / pid write of the file at the path)
     ctx.corr_check('lock_trace', 'Lock', 'list pconf * list tobs', terms,
                    "fun c => ttrace_ok true (fst c) (snd c)", lambda i: descr[i], shard=150)
+    ctx.corr_check('sem_dir_trace', 'Lock', 'list pconf * list obs', sem_terms,
+                   "fun c => sem_trace_ok true (fst c) (snd c)", lambda i: sem_descr[i], shard=150)
     run_bundle_scope(ctx)
     run_tile_lock_processes(ctx)
 
